@@ -1,5 +1,6 @@
 import VlsModel.Model.Hmac
 import VlsModel.Gen.HmacFn
+import VlsModel.Lemmas.FnGen
 /-
 C17 — the hand-written HMAC-input model (`Model/Hmac.lean`: `encRec`, `encShared`, `sharedTag`, `valueTag`, `Helper`,
 `prepareValue`, `processValue`) tied to the function bodies that `translate/x_hmac.py` regenerates from the current
@@ -272,6 +273,65 @@ theorem C17_fn_frontend_tag (mac : Mac) (secret nonce : Bytes) (rs : List KVRec)
     rw [C17_fn_frontend_put_conv r (hv r (by simp))]
     congr 1
     exact ih (fun x hx => hv x (by simp [hx]))
+
+/-! ## vls-util: `ExternalPersistWithHelper::init_state` — the glue that acts on the verdict when the signer starts -/
+
+/-- a raw record of a reply as a model record -/
+def ofT (t : Hm.Bytes × (Nat × Hm.Bytes)) : KVRec := ⟨t.1, t.2.1, t.2.2⟩
+
+theorem toGen_ofT (l : List (Hm.Bytes × (Nat × Hm.Bytes))) : (l.map ofT).map toGen = l := by
+  induction l with
+  | nil => rfl
+  | cons t l ih => obtain ⟨k, v, x⟩ := t; simp [ofT, toGen, ih]
+
+theorem foldlM_pure_state (l : List (Hm.Bytes × (Nat × Hm.Bytes))) (s : Glue.ExternalPersistWithHelper) :
+    List.foldlM (m := Rs.M) (fun (self : Glue.ExternalPersistWithHelper) (x : Hm.Bytes × (Nat × Hm.Bytes)) =>
+        match x with
+        | (key, version_value) => (pure { self with state := Hm.bmapInsert self.state key version_value } : Rs.M _)) s l
+      = .ok { s with state := l.foldl (fun st r => Hm.bmapInsert st r.1 r.2) s.state } := by
+  induction l generalizing s with
+  | nil => rfl
+  | cons t l ih =>
+    obtain ⟨k, vv⟩ := t
+    simp only [List.foldlM_cons, List.foldl_cons, pure, Except.pure, bind, Except.bind]
+    exact ih _
+
+/-- `init_state`: the read request carries the nonce drawn in this very call (`e`, the entropy source's output); the
+    records of the reply enter the signer's state **only if** the received tag is, as a byte list, the tag of exactly these
+    records under the helper's secret and that nonce — otherwise the function panics (`assert!`) with the state
+    untouched.  (A `debug_assert!` or a dropped check changes the generated definition: seed C17-r4-1.) -/
+theorem C17_fn_init_state (mac : Mac) (e : Bytes)
+    (get : Hm.Bytes → Hm.Bytes → (List (Hm.Bytes × (Nat × Hm.Bytes)) × Hm.Bytes))
+    (s : Glue.ExternalPersistWithHelper) (h : Helper) (hh : s.helper = toGenH h) :
+    Glue.ExternalPersistWithHelper.init_state mac e get s
+      = if accept (get [] e).2 (sharedTag mac h.secret e ((get [] e).1.map ofT))
+        then .ok { s with state := (get [] e).1.foldl (fun st r => Hm.bmapInsert st r.1 r.2) s.state }
+        else .error .panic := by
+  unfold Glue.ExternalPersistWithHelper.init_state
+  simp only [hh, C17_fn_helper_new_nonce h e, Helper.issued, Helper.newNonce]
+  cases hg : get [] e with
+  | mk l tag =>
+    have hc := C17_fn_helper_check_hmac mac (h.newNonce e) (l.map ofT) tag
+    rw [toGen_ofT] at hc
+    simp only [Helper.newNonce] at hc
+    simp only [hc, Helper.checkHmac]
+    by_cases ha : accept tag (sharedTag mac h.secret e (l.map ofT)) = true
+    · simp only [ha, Rs.assert, if_true, Rs.pure_eq, Rs.bind_ok]
+      have := foldlM_pure_state l s
+      rw [hh] at this
+      simpa [bind, Except.bind, pure, Except.pure] using this
+    · have ha' : accept tag (sharedTag mac h.secret e (l.map ofT)) = false := by simpa using ha
+      simp [ha', Rs.assert, Rs.panic, bind, Except.bind]
+
+/-- hence a reply made for an earlier read (another nonce `e' ≠ e` of the same length) never enters the state, whatever
+    records it carries — `C17_nonce_check` through the glue -/
+theorem C17_fn_init_state_refuses (mac : Mac) (e : Bytes)
+    (get : Hm.Bytes → Hm.Bytes → (List (Hm.Bytes × (Nat × Hm.Bytes)) × Hm.Bytes))
+    (s : Glue.ExternalPersistWithHelper) (h : Helper) (hh : s.helper = toGenH h)
+    (hbad : accept (get [] e).2 (sharedTag mac h.secret e ((get [] e).1.map ofT)) = false) :
+    Glue.ExternalPersistWithHelper.init_state mac e get s = .error .panic := by
+  rw [C17_fn_init_state mac e get s h hh, hbad]
+  rfl
 
 /-- non-vacuity: a one-record list and a stored value -/
 example : Core.compute_shared_hmac (fun k m => k ++ m) [1] [2] ([⟨[3], 4, [5]⟩].map toGen)
